@@ -79,19 +79,26 @@ _preload()
 # known finding hook: IPv6-literal upstream URLs are connected with their brackets
 # ----------------------------------------------------------------------------------------------
 IPV6_FAILURE = 'upstream-ipv6-literal-connected-with-brackets'
+# a dynamic route's Url with a non-UTF-8 byte (e.g. in its path) raises UnicodeDecodeError from
+# `str(self.choice)` (access-log string) and the request is dropped; the same URL in a static route works
+STR_FAILURE = 'dynamic-route-url-not-utf8-raises-in-log-string'
 
 
-def _ipv6_finding_id():
+def _finding_id(failure):
+    """id of the open C12 entry of known_findings.json with this failure signature, if listed.
+    While an entry is not listed the corresponding inputs are kept outside the oracle's quantifier
+    (the oracle must not fail on the unchanged tree); the correspondence covers them either way."""
     try:
         for f in json.load(open(os.path.join(VERIF, 'known_findings.json')))['findings']:
-            if f.get('property') == 'C12' and f.get('status') == 'open' and f.get('failure') == IPV6_FAILURE:
+            if f.get('property') == 'C12' and f.get('status') == 'open' and f.get('failure') == failure:
                 return f['id']
     except Exception:
         pass
     return None
 
 
-IPV6_ID = _ipv6_finding_id()
+IPV6_ID = _finding_id(IPV6_FAILURE)
+STR_ID = _finding_id(STR_FAILURE)
 
 
 # ----------------------------------------------------------------------------------------------
@@ -167,20 +174,6 @@ def _classify(segs):
 
 def _drive(case):
     """Runs the real classes; returns a dict of observations."""
-    if not os.environ.get('VERIF_C12_TIMING'):
-        return _drive0(case)
-    import time
-    t = time.time()
-    try:
-        return _drive0(case)
-    finally:
-        dt = time.time() - t
-        if dt > 2:
-            with open('/tmp/c12/slow.log', 'a') as f:
-                f.write('%.1f pid=%d %s\n' % (dt, os.getpid(), json.dumps(case)[:300]))
-
-
-def _drive0(case):
     import logging
     logging.disable(logging.CRITICAL)
     from harness.sim import World, elems
@@ -392,6 +385,11 @@ def url_parts(u):
     if not m:
         return None
     scheme, host, port, path = m.groups()
+    if path is not None and not STR_ID:
+        try:
+            path.decode('utf-8')
+        except UnicodeDecodeError:
+            return None
     port = None if port is None else int(port)
     if port is not None and not (1 <= port <= 65535):
         return None
@@ -481,26 +479,11 @@ def tiny_parse_request(raw):
 
 
 def oracle(case):
-    sig = _oracle(case)
-    if sig and os.environ.get('VERIF_C12_DEBUG'):
-        o = _drive(case)
-        sig += ' | rerun=%r first=%r' % (_oracle(case), {k: (v if not isinstance(v, (bytes, list)) else len(v))
-                                                       for k, v in _LAST.items()})
-        del o
-    return sig
-
-
-_LAST = {}
-
-
-def _oracle(case):
     if not in_quantifier(case):
         return None
     from proxy.http.responses import NOT_FOUND_RESPONSE_PKT
     m = case['meta']
     o = _drive(case)
-    _LAST.clear()
-    _LAST.update(o)
     if o['skip']:
         return 'valid-web-request-not-served-' + o['skip']
     path_text = bytes.fromhex(m['target']).decode('utf-8')
@@ -514,6 +497,8 @@ def _oracle(case):
             return 'no-route-request-connection-not-torn-down'
         return None
     if o['exc'] is not None:
+        if STR_ID and o['exc'] == 'valueError' and _has_undecodable_dynamic_url(case, path_text):
+            return STR_FAILURE
         return 'matching-request-raised-' + str(o['exc'])
     if not yields:
         # only literal responses
@@ -582,18 +567,37 @@ def _oracle(case):
     return None
 
 
+def _has_undecodable_dynamic_url(case, path_text):
+    for routes in case['plugins']:
+        for r in routes:
+            if re.compile(r['re']).match(path_text):
+                if r['t'] == 'u':
+                    try:
+                        bytes.fromhex(r['url']).decode('utf-8')
+                    except UnicodeDecodeError:
+                        return True
+                break
+    return False
+
+
 def classify(case, sig):
     if sig == IPV6_FAILURE and IPV6_ID:
         return IPV6_ID
+    if sig == STR_FAILURE and STR_ID:
+        return STR_ID
     return None
 
 
 def finding_witnesses():
-    if not IPV6_ID:
-        return {}
     rng = __import__('random').Random(7)
-    return {IPV6_ID: _mk_case(rng, [[_static('/get$', [b'http://[::1]:8080/x'])]], [0], b'/get', rewrite=0,
-                              framing='none', up=[])}
+    out = {}
+    if IPV6_ID:
+        out[IPV6_ID] = _mk_case(rng, [[_static('/get$', [b'http://[::1]:8080/x'])]], [0], b'/get', rewrite=0,
+                                framing='none', up=[])
+    if STR_ID:
+        out[STR_ID] = _mk_case(rng, [[{'t': 'u', 're': '/get$', 'url': b'http://h.test/\xff'.hex()}]], [0], b'/get',
+                               rewrite=0, framing='none', up=[])
+    return out
 
 
 # ----------------------------------------------------------------------------------------------
@@ -737,6 +741,12 @@ def corpus():
     for u in EDGE_URLS:
         cs.append(_mk_case(rng, [[_static('/', [u])]], [0], b'/', 1, 'none', up=[]))
         cs.append(_mk_case(rng, [[{'t': 'u', 're': '/', 'url': u.hex()}]], [0], b'/', 0, 'none', up=[]))
+    # a dynamic route whose Url cannot be rendered by str() raises at once, even when a later plugin would win
+    for bad in (b'http://h\xff.test/', b'http://h.test/\xff'):
+        cs.append(_mk_case(rng, [[{'t': 'u', 're': '/', 'url': bad.hex()}], [_static('/', [b'https://later.test:8443/x'])]],
+                           [0, 0], b'/', 1, 'none', up=[b'r'.hex()]))
+        cs.append(_mk_case(rng, [[_static('/', [bad])], [_static('/', [b'https://later.test:8443/x'])]],
+                           [0, 0], b'/', 1, 'none', up=[b'r'.hex()]))
     cs.append(_mk_case(rng, [[_static('/', [])]], [0], b'/', 0, 'none', up=[]))
     cs.append(_mk_case(rng, [[_static('/', [b'http://a.test'])]], [1], b'/', 0, 'none', up=[]))
     cs.append(_mk_case(rng, [[{'t': 'x', 're': '/'}]], [0], b'/', 0, 'none', up=[]))
@@ -780,7 +790,7 @@ def _small_scope(rng):
 
 def generate(rng, tier):
     big = tier == 'thorough'
-    n_main = 40000 if big else 4000
+    n_main = 40000 if big else 2500
     for _ in range(n_main):
         edge = 0.0 if rng.random() < 0.7 else 0.35
         plugins = _rtable(rng, edge)
